@@ -439,11 +439,21 @@ def gen_run_case(rng, kind, thorough=False):
         hs = [0.0] + hs
         Ts = [T0 + rng.uniform(-4, 4) * maxTC for _ in hs]
         spec = ('two', [h / 3600 for h in hs], Ts)
+    elif kind == 'wiggle':
+        # oscillation that stays within the threshold of the build temperature (no rebuild) while the size grid is
+        # extended at different phases of it: entries of different age sit side by side in the table
+        n = rng.randint(50, 80); sim = n * dt
+        half = rng.randint(3, 7) * dt
+        A = rng.uniform(0.7, 0.98) * maxTC
+        ks = int(sim / half) + 2
+        spec = ('two', [k * half / 3600 for k in range(ks)], [T0] + [T0 + A * (1 if k % 2 else -1) for k in range(1, ks)])
     elif kind == 'iso':
         spec = ('iso', T0)
     else:
         raise ValueError(kind)
     pbm = rng.choice(['std', 'std', 'small'])
+    if kind == 'wiggle':
+        pbm, mode = 'small', 'fixed'
     return {'family': 'run', 'kind': kind, 'spec': spec, 'via': rng.choice(['ctor', 'setter']), 'solver': solver, 'mode': mode,
             'n': n, 'sim': sim, 'maxTC': maxTC, 'method': 'curvature', 'pbm': pbm, 'preload': pbm == 'small',
             'solves': rng.choice([1, 1, 2]), 'poke': pbm == 'small'}
@@ -828,7 +838,7 @@ def check_pair(ctx, res, case):
             break
 
 
-KINDS = ['slow-heat', 'slow-cool', 'fast-heat', 'fast-cool', 'hold-ramp-hold', 'jump', 'zigzag', 'iso']
+KINDS = ['slow-heat', 'slow-cool', 'fast-heat', 'fast-cool', 'hold-ramp-hold', 'jump', 'zigzag', 'wiggle', 'iso']
 
 
 def corr(ctx, oracle_only=False, scale=1.0):
@@ -837,10 +847,10 @@ def corr(ctx, oracle_only=False, scale=1.0):
                 '(b) real binary Al-Zr PrecipitateModel runs: schedule kind x solver x step mode x threshold x PBM size x constructor|setter x 1-2 solve calls, traced call by call; '
                 'non-trivial = non-isothermal schedule (a) / non-isothermal run with > 5 recorded steps (b); distinct = (family, op kinds | run parameters)')
     res.monitored = list(MONITORED)
-    corr_sched(ctx, res, int(ctx.n(240, 6000) * scale), oracle_only)
+    corr_sched(ctx, res, int(ctx.n(240, 12000) * scale), oracle_only)
     # ---- real runs
     kinds = list(KINDS)
-    reps = ctx.n(2, 16)
+    reps = ctx.n(2, 40)
     cases = []
     for r in range(reps):
         for k in kinds:
